@@ -27,6 +27,7 @@ H_EXT = ('glm/glm.hpp', 'glm/ext/scalar_common.hpp', 'glm/ext/vector_common.hpp'
          'glm/ext/matrix_common.hpp', 'glm/ext/matrix_relational.hpp', 'glm/gtc/integer.hpp', 'glm/gtc/round.hpp', 'glm/gtc/bitfield.hpp',
          'glm/gtc/epsilon.hpp', 'glm/gtc/reciprocal.hpp')
 H_GTX = ('glm/glm.hpp', 'glm/gtx/extended_min_max.hpp', 'glm/gtx/component_wise.hpp')
+LOOPY = ('findNSB',)
 CFGS = {'core': Cfg('core', headers=H_CORE), 'ext': Cfg('ext', headers=H_EXT), 'gtx': Cfg('gtx', headers=H_GTX)}
 
 F, S, U, B = 'f', 's', 'u', 'b'      # type classes: float, signed, unsigned, bool
@@ -252,6 +253,9 @@ def compare(tv, ts, cls, isfloat, w):
     if L.lanes_only(pv - ps):
         return R.REFUTED, 'different integer polynomial: vector %s ; scalar %s' % (P.show_poly(pv), P.show_poly(ps))
     d = tm.diff(tv, ts)
+    wit = L.pattern_witness(tv, ts)
+    if wit:
+        return R.REFUTED, 'vector lane and scalar overload differ for the input bit patterns %s: vector %#x, scalar %#x (terms differ at %s: vector %s ; scalar %s)' % (wit[0], wit[1], wit[2], d[0], tm.show(d[1], 3), tm.show(d[2], 3))
     return R.UNDECIDED, 'terms differ at %s: vector %s ; scalar %s' % (d[0], tm.show(d[1], 5), tm.show(d[2], 5))
 
 
@@ -545,6 +549,11 @@ def cases(tier):
     seen = set()
     for fn in FUNCS:
         cfg = CFGS[fn.grp]
+        if fn.name in LOOPY:
+            # functions with a data-dependent loop: a fixed number of iterations is peeled and the residual back edge cut in both the vector and the
+            # scalar kernel; the lane terms (and the exceed conditions, folded into the lane term by the interpreter's select chains) are compared as usual.
+            # Both kernels inline the same scalar code, so equal peeled terms mean the same function of the lane's own operands
+            cfg = Cfg(cfg.name + '_peel', defines=cfg.defines, flags=cfg.flags, headers=cfg.headers, peel=8)
         for T in types_for(fn.types, tier):
             for Q in quals:
                 if Q != 'highp' and T not in ('float', 'int'):
